@@ -5,7 +5,7 @@
    these models by coq/tie/Wave_Tie*.v on every run. *)
 From Coq Require Import Reals List.
 From Coquelicot Require Import Complex.
-From OdakV Require Import Base.RealAux Wave.Fields Wave.Kernels Wave.Steps.
+From OdakV Require Import Base.RealAux Wave.Fields Wave.Kernels Wave.Steps Wave.PadCrop.
 Import ListNotations.
 Open Scope R_scope.
 
@@ -52,6 +52,18 @@ Theorem C02_step_programs : forall Ks u,
   fold_left (step F Finv S Sinv) Ks (clip n m u) = cust u (fold_left fmul Ks fone) fone.
 Proof. eapply steps_fold; eassumption. Qed.
 End Contracts.
+
+(* pad-then-crop at distance 0: with the transforms of the DOUBLED grid (2n x 2m), zero-padding u, propagating by
+   distance 0 and cropping the centre returns u.  padf / cropf are the offsets start = (2n)/2 - n/2 that property C08
+   proves of zero_pad / crop_center and ties to the code. *)
+Theorem C02_pad_crop_identity : forall (n m : nat) (F Finv S Sinv : fld -> fld),
+  (forall u, Finv (clip (2 * n) (2 * m) u) = Finv u) -> (forall u, Finv (F u) = clip (2 * n) (2 * m) u) ->
+  (forall u, Sinv (S u) = clip (2 * n) (2 * m) u) ->
+  forall u, cropf n m (custom F Finv S Sinv (padf n m u) fone fone) = clip n m u.
+Proof.
+  intros n m F Finv S Sinv H1 H2 H3 u.
+  rewrite (custom_id (2 * n) (2 * m) F Finv S Sinv H1 H2 H3). apply cropf_padf.
+Qed.
 
 (* kernels with a phase additive in z: H(z1) H(z2) = H(z1+z2), H(0) = 1, H(z) H(-z) = 1 *)
 Theorem C02_kernel_compose : forall ph : R -> R, (forall z1 z2, ph (z1 + z2) = ph z1 + ph z2) ->
